@@ -195,14 +195,14 @@ def pushScan (c : Cfg) (s : St) : St × Out :=
 
 /-! ### execute_and_process_raft_rpc -/
 
-/-- Phase 3: insert a read batch into `pending_reads` (`entry(read_index).or_insert_with(..).extend`). -/
-def preadsInsert (pr : List (Nat × Nat × List Nat)) (ri dl : Nat) (ids : List Nat) :
-    List (Nat × Nat × List Nat) :=
-  if pr.any (·.1 == ri) then
-    pr.map fun e => if e.1 == ri then (e.1, e.2.1, e.2.2 ++ ids) else e
-  else
-    -- keep ascending by key
-    (pr.filter (·.1 < ri)) ++ [(ri, dl, ids)] ++ (pr.filter (·.1 > ri))
+/-- Phase 3: insert a read batch into `pending_reads` (`entry(read_index).or_insert_with(..).extend`): the batch
+    registered under `ri` is extended (its deadline kept), otherwise a new batch is inserted in key order. -/
+def preadsInsert : List (Nat × Nat × List Nat) → Nat → Nat → List Nat → List (Nat × Nat × List Nat)
+  | [], ri, dl, ids => [(ri, dl, ids)]
+  | e :: rest, ri, dl, ids =>
+    if e.1 == ri then (e.1, e.2.1, e.2.2 ++ ids) :: rest
+    else if ri < e.1 then (ri, dl, ids) :: e :: rest
+    else e :: preadsInsert rest ri dl ids
 
 /-- `calculate_read_index`. -/
 def St.readIndex (s : St) : Nat := max s.commit (s.noopIdx.getD 0)
@@ -303,16 +303,19 @@ def drainWrites (s : St) (nc : Nat) : St × Out :=
     committed.flatMap fun e => if e.2.wait then [] else answerAll e.2.senders .ok
   ({ s with pcw := remaining, pwa := s.pwa ++ toApply }, out)
 
+/-- the answer a commit action's sender gets (only NodeJoin actions carry a sender) -/
+def joinAnswer (r : Resp) (e : Nat × Nat × CAct) : Option (Nat × Resp) :=
+  match e.2.2 with
+  | .join id => some (id, r)
+  | .noop => none
+
 /-- `drain_commit_actions(new_commit)`; `on_noop_committed` records `last_entry_id()` (as coded). -/
 def drainActions (s : St) (nc : Nat) : St × Out :=
   let committed := s.pca.filter (·.1 ≤ nc)
   let remaining := s.pca.filter (fun e => !(e.1 ≤ nc))
   let s := { s with pca := remaining }
   let s := if committed.any (fun e => e.2.2 == .noop) then { s with noopIdx := some s.lastEntry } else s
-  let out : Out := committed.filterMap fun e =>
-    match e.2.2 with
-    | .join id => some (id, .joinOk)
-    | .noop => none
+  let out : Out := committed.filterMap (joinAnswer .joinOk)
   (s, out)
 
 def drainPleases (s : St) : St × Out :=
@@ -431,7 +434,7 @@ def sweep (c : Cfg) (s : St) : St × Out :=
   let o3 := answerAll ((s.pleases.filter (fun e => s.now ≥ e.2)).map (·.1)) .deadline
   let s := { s with pleases := s.pleases.filter (fun e => !(s.now ≥ e.2)) }
   let expired := s.pca.filter (fun e => s.now ≥ e.2.1)
-  let o4 : Out := expired.filterMap fun e => match e.2.2 with | .join id => some (id, .deadline) | .noop => none
+  let o4 : Out := expired.filterMap (joinAnswer .deadline)
   let s := { s with pca := s.pca.filter (fun e => !(s.now ≥ e.2.1)) }
   let s := if expired.any (fun e => e.2.2 == .noop) then { s with wantStepDown := true } else s
   let _ := c
@@ -464,7 +467,7 @@ def stepDown (s : St) : St × Out :=
     (s.pcw.flatMap fun e => answerAll e.2.senders .proposeFailed) ++
     -- dropped with the state:
     answerAll (s.pwa.map (·.2)) .dropped ++
-    (s.pca.filterMap fun e => match e.2.2 with | .join id => some (id, Resp.dropped) | .noop => none)
+    (s.pca.filterMap (joinAnswer .dropped))
   ({ s with linBuf := [], leaseQ := [], evQ := [], preads := [], pleases := [], propose := [], pcw := [],
             pwa := [], pca := [], phase := .stepped,
             -- `become_follower` revokes the read lease
